@@ -22,6 +22,7 @@ __CPROVER_assigns()
 size_t g_j;   /* ghost: arbitrary index (frame) */
 #define LEN_OK(n) ((n) < ((size_t)1 << 40))
 
+#ifndef UNIT_RDPTOP
 //@extract file=CPP/Clipper2Lib/include/clipper2/clipper.h func=RDP vec=path,flags byval=flags
 //@sub /const PathT path/const PathT path/
 //@sub /std::vector<bool>\s+flags/VecBool flags/
@@ -48,5 +49,49 @@ __CPROVER_loop_invariant(max_d >= 0.0 && (max_d > 0.0 ==> (idx > begin && idx < 
 __CPROVER_decreases(end + 1 - i)
 //@end
 
+#else
+/* RDP's contract as proved above, with the assigns clause widened from the slice [begin, end] to the whole flags
+   object (a sound weakening: havocking a symbolic-size slice exhausts the SAT back end's memory) */
+void RDP(const PathT path, size_t begin, size_t end, double epsSqrd, VecBool flags)
+__CPROVER_requires(flags.size == path.size && begin <= end && end < path.size && flags.data[begin] && epsSqrd >= 0.0)
+__CPROVER_ensures(flags.data[begin])
+__CPROVER_ensures(__CPROVER_old(flags.data[end]) ==> flags.data[end])
+__CPROVER_assigns(__CPROVER_object_whole(flags.data))
+;
+#endif
+#ifndef UNIT_RDPTOP
 void h_RDP(void) { PathT p; size_t b, e; double eps; VecBool f; RDP(p, b, e, eps, f); VF_CANARY(); }
+#endif
 //@run name=RDP entry=h_RDP enforce=RDP rec=1 replace=vf_pdist loops=1 flags=SAFETY-nan-float timeout=300
+
+#ifdef UNIT_RDPTOP
+VF_OBS_DECL
+//@extract file=CPP/Clipper2Lib/include/clipper2/clipper.h func=RamerDouglasPeucker sig="const Path<T>& path" vec=path,flags,result byval=path
+//@sub /return PathT\(path\);/return path;/
+//@sub /std::vector<bool>\s+flags\(len\);/VecBool flags; VF_NEW(flags, len);/
+//@sub /PathT result;/PathT result = {0};/
+//@sub /VF_RESERVE\(result,/VF_RESERVE_G(result,/
+//@sub /VF_PUSH\(result, path\.data\[i\]\)/VF_PUSHG(result, i)/
+__CPROVER_requires(LEN_OK(path.size) && LEN_OK(g_k) && __CPROVER_is_fresh(path.data, path.size * sizeof(PointT)) && epsilon >= 0.0)
+__CPROVER_ensures(path.size < 5 ==> (__CPROVER_return_value.data == path.data && __CPROVER_return_value.size == path.size))
+/* the result is made of input points only (every push copies path[i]); in input order; first and last point kept */
+__CPROVER_ensures(path.size >= 5 ==> (__CPROVER_return_value.size >= 2 && __CPROVER_return_value.size <= path.size &&
+     g_src_first == 0 && g_src_last == path.size - 1))
+__CPROVER_ensures((path.size >= 5 && g_k < __CPROVER_return_value.size) ==> (g_src_k < path.size &&
+     (g_k + 1 < __CPROVER_return_value.size ==> g_src_k < g_src_k1)))
+__CPROVER_assigns(g_src_k, g_src_k1, g_src_first, g_src_last)
+//@loop 1
+__CPROVER_assigns(i, result.size, g_src_k, g_src_k1, g_src_first, g_src_last)
+__CPROVER_loop_invariant(i <= len && result.size <= i && result.cap == len)
+__CPROVER_loop_invariant(i > 0 ==> (result.size > 0 && g_src_first == 0))
+__CPROVER_loop_invariant(result.size > 0 ==> g_src_last < i)
+__CPROVER_loop_invariant(result.size == 1 ==> g_src_last == g_src_first)
+__CPROVER_loop_invariant((i > 0 && flags.data[i - 1]) ==> g_src_last == i - 1)
+__CPROVER_loop_invariant(g_k < result.size ==> (g_src_k < i && g_src_k <= g_src_last && (g_k + 1 < result.size ==> (g_src_k < g_src_k1 && g_src_k1 <= g_src_last))))
+__CPROVER_loop_invariant(g_k + 1 == result.size ==> g_src_k == g_src_last)
+__CPROVER_decreases(len - i)
+//@end
+void h_RDPTOP(void) { PathT p; double eps; RamerDouglasPeucker(p, eps); VF_CANARY(); }
+#endif
+//@run name=RamerDouglasPeucker entry=h_RDPTOP enforce=RamerDouglasPeucker replace=RDP,Sqr loops=1 defs=UNIT_RDPTOP flags=SAFETY-nan-float timeout=300
+//@assume G3'': output vectors that are only appended to are abstracted to a ghost observation at one arbitrary position (source indices of the pushes at g_k, g_k+1, first, last); the rewrite emplace_back(path[i]) -> VF_PUSHG(result, i) is syntactic, so "every output element is the input element path[src]" holds by construction of the rewrite.
